@@ -313,6 +313,20 @@ func genC18(r *rng, n int, tier string, emit func(string, ...string)) {
 		emit("fields", c)
 	}
 	for i := 0; i < n; i++ {
+		if r.chance(1, 8) {
+			// long headers with repeated names in unsorted order, then Sort: stability needs more than a dozen entries to matter
+			sub := r.fork()
+			names := []string{"WARC-Concurrent-To", "X-B", "Content-Type", "x-a", "WARC-Date", "Zz", "WARC-Concurrent-To", "X-B"}
+			cnt := sub.rangeInt(13, 60)
+			var ops []string
+			for j := 0; j < cnt; j++ {
+				ops = append(ops, "add:"+hxs(pick(sub, names))+":"+hxs(fmt.Sprintf("v%02d", j)))
+			}
+			ops = append(ops, "sort", "write", "getall:"+hxs("warc-concurrent-to"), "get:"+hxs("x-b"))
+			stat("fields-len", "long-sort")
+			emit("fields", strings.Join(ops, ";"))
+			continue
+		}
 		l := r.rangeInt(1, 12)
 		if r.chance(1, 10) {
 			l = r.rangeInt(12, 40)
